@@ -141,12 +141,56 @@ def hostBound (style : Style) (len cols : Nat) : Nat :=
 theorem fw_terminates (style : Style) (g : Grid) (cols row speed : Nat) (text : List Char) (hc : 0 < cols) :
     let s0 := Fw.start style g cols row text speed false
     (fwSteps cols (fwBound style text.length cols) (s0.1, s0.2.grid)).1.active = false := by
-  sorry
+  intro s0
+  have heq : ∀ n s, fwSteps cols n s = Lemmas.C18.stepsG (Lemmas.C18.fwStp cols) n s := by
+    intro n
+    induction n with
+    | zero => intro s; rfl
+    | succ n ih => intro ⟨a, g⟩; simp only [fwSteps, Lemmas.C18.stepsG, ih]; rfl
+  rw [heq]
+  cases style
+  · exact Lemmas.C18.scroll_done _ (Lemmas.C18.keeps_fw cols) text _ (Lemmas.C18.fw_scroll_spec text cols hc)
+      _ _ rfl rfl rfl rfl (by omega)
+  · exact Lemmas.C18.blink_done _ (Lemmas.C18.fw_blink_spec cols) _ _ rfl rfl rfl
+  · refine Lemmas.C18.tw_done _ (Lemmas.C18.keeps_fw cols) text (Lemmas.C18.fw_tw_spec text cols) _ _ rfl rfl rfl ?_
+    show Int.ofNat (if text.length > 0 then 1 else 0) = ((min text.length 1 : Nat) : Int)
+    split <;> simp only [Int.ofNat_eq_natCast] <;> omega
+  · by_cases hdeg : 0 < text.length ∧ text.length < cols
+    · have hb : fwBound .bounce text.length cols = 2 * (cols - text.length) := by
+        simp only [fwBound, if_pos hdeg]
+      rw [hb]
+      exact Lemmas.C18.bounce_done _ (Lemmas.C18.keeps_fw cols) text _ (by omega)
+        (Lemmas.C18.fw_bounce_spec text cols hdeg.1 hdeg.2) _ _ rfl rfl rfl rfl rfl rfl
+    · have hb : fwBound .bounce text.length cols = 1 := by
+        simp only [fwBound, if_neg hdeg]
+      rw [hb]
+      exact Lemmas.C18.bounce_deg_done _ text cols (Lemmas.C18.fw_bounce_deg_spec text cols) hdeg _ _ rfl rfl rfl
 
 theorem host_terminates (style : Style) (g : Grid) (cols row speed : Nat) (text : List Char) (hc : 0 < cols) :
     let s0 := Host.animate style g cols row text speed false
     (hostSteps cols (hostBound style text.length cols) s0).1.active = false := by
-  sorry
+  intro s0
+  have heq : ∀ n s, hostSteps cols n s = Lemmas.C18.stepsG (Lemmas.C18.hostStp cols) n s := by
+    intro n
+    induction n with
+    | zero => intro s; rfl
+    | succ n ih => intro ⟨a, g⟩; simp only [hostSteps, Lemmas.C18.stepsG, ih]; rfl
+  rw [heq]
+  cases style
+  · exact Lemmas.C18.scroll_done _ (Lemmas.C18.keeps_host cols) text _ (Lemmas.C18.host_scroll_spec text cols hc)
+      _ _ rfl rfl rfl rfl (by omega)
+  · exact Lemmas.C18.blink_done _ (Lemmas.C18.host_blink_spec cols) _ _ rfl rfl rfl
+  · exact Lemmas.C18.tw_done _ (Lemmas.C18.keeps_host cols) text (Lemmas.C18.host_tw_spec text cols) _ _ rfl rfl rfl rfl
+  · by_cases hdeg : 0 < text.length ∧ text.length < cols
+    · have hb : hostBound .bounce text.length cols = 2 * (cols - text.length) := by
+        simp only [hostBound, fwBound, if_pos hdeg]
+      rw [hb]
+      exact Lemmas.C18.bounce_done _ (Lemmas.C18.keeps_host cols) text _ (by omega)
+        (Lemmas.C18.host_bounce_spec text cols hdeg.1 hdeg.2) _ _ rfl rfl rfl rfl rfl rfl
+    · have hb : hostBound .bounce text.length cols = 1 := by
+        simp only [hostBound, fwBound, if_neg hdeg]
+      rw [hb]
+      exact Lemmas.C18.bounce_deg_done _ text cols (Lemmas.C18.host_bounce_deg_spec text cols) hdeg _ _ rfl rfl rfl
 
 /-- the bound is linear: at most `2·(len + cols) + 1` -/
 theorem bound_linear (style : Style) (len cols : Nat) :
